@@ -138,7 +138,7 @@ Proof.
   set (f := b_rtflag (gb g)) in *. set (sl := rt_slot f).
   rewrite !rt_of_slot in Hev, Hother. fold sl in Hev.
   rewrite (h_cb_parse o h FRT) by (left; congruence). rewrite <- Hcb.
-  rewrite (snap_len conv sl s I), snap_avail, !snap_corr, !snap_prog.
+  rewrite (snap_len conv sl s I), snap_cells_avail, !snap_corr, !snap_prog.
   set (rte := filter (isf FRT) (snd (process g s))) in *.
   assert (Hcl : m_cleared (last_rt s) g s sl = m_switch (last_rt s) g && string_available (get_text sl s)).
   { unfold m_cleared. fold f. fold sl. rewrite tslot_eqb_refl, andb_true_r. reflexivity. }
